@@ -6,6 +6,7 @@ From TV Require Import Model.Outline Spec.Outline Proofs.Outline Proofs.OutlineB
 From TV Require Import Model.Composite Spec.Composite Proofs.Composite.
 From TV Require Import Model.Charstring Proofs.Charstring Proofs.CharstringBounds.
 From TV Require Import Model.GvarScalar Proofs.GvarScalar.
+From TV Require Import Model.VMetrics Spec.VMetrics Proofs.VMetrics.
 Open Scope Z_scope.
 
 (* buildSegments, any number of contours, any coordinates: each contour is decoded independently of the previous ones, and
@@ -92,7 +93,7 @@ Proof. exact parse_composite_total_lemma. Qed.
 Print Assumptions composite_parse_total.
 
 (* getPointsForGlyph on ANY set of glyf records (cyclic and self-referencing composites included): no panic, and the
-   23 levels of fuel of the model are never exhausted - the nesting limit of 20 stops every recursion *)
+   23 levels of fuel of the model are never exhausted - the nesting limit of 20 stops every recursion (glyf_all_points itself takes no fuel) *)
 Theorem glyf_points_total : forall e gid, recs_nonneg e -> total (glyf_all_points e gid).
 Proof. exact glyf_all_points_total_lemma. Qed.
 Print Assumptions glyf_points_total.
@@ -101,25 +102,38 @@ Print Assumptions glyf_points_total.
    order: skipped when the component yields fewer than 4 points (out of range / too deep), otherwise the image of the
    component's points (phantoms removed) under its placement map; then the phantom points; at depth 0 everything is
    shifted by minus the left phantom point *)
-Theorem composite_is_placed_components : forall e gid depth k raw h parts all,
-  lookup_rec (e_recs e) gid = Some raw -> gid < e_nglyf e -> depth <= 20 ->
+Theorem composite_is_placed_components : forall e gid depth ec k raw h parts all ec',
+  lookup_rec (e_recs e) gid = Some raw -> gid < e_nglyf e -> depth <= 20 -> ec <= 1024 ->
   parse_glyph_full raw = Ok (h, BComposite parts) ->
-  points_for_glyph (S k) e gid depth = Ok all ->
+  points_for_glyph (S k) e gid depth ec = Ok (all, ec') ->
   exists all' ph',
-    assembled (fun g => points_for_glyph k e g (depth + 1)) parts [] (phantoms_of e h gid) all' ph'
+    assembled (fun g c => points_for_glyph k e g (depth + 1) c) parts [] (phantoms_of e h gid) (ec + 1) all' ph' ec'
     /\ all = top_shift depth (all' ++ ph').
 Proof. exact composite_points_lemma. Qed.
 Print Assumptions composite_is_placed_components.
 
 (* ... so the collected points are exactly the concatenation of the placed component point lists, each component being a
-   component record of the glyph, decoded by the recursive call *)
-Theorem assembled_is_concatenation : forall rc parts all ph all' ph',
-  assembled rc parts all ph all' ph' ->
+   component record of the glyph, decoded by the recursive call (at some value of the visit counter) *)
+Theorem assembled_is_concatenation : forall rc parts all ph ec all' ph' ec',
+  assembled rc parts all ph ec all' ph' ec' ->
   exists contribs : list (cpart * list cpoint * (cpoint -> cpoint)),
     all' = all ++ concat (map (fun t => map (snd t) (drop_last4 (snd (fst t)))) contribs)
-    /\ Forall (fun t => In (fst (fst t)) parts /\ rc (p_gid (fst (fst t))) = Ok (snd (fst t)) /\ 4 <= zlen (snd (fst t))) contribs.
+    /\ Forall (fun t => In (fst (fst t)) parts /\ (exists c c', rc (p_gid (fst (fst t))) c = Ok (snd (fst t), c')) /\ 4 <= zlen (snd (fst t))) contribs.
 Proof. exact assembled_concat. Qed.
 Print Assumptions assembled_is_concatenation.
+
+(* the budget (maxCompositeEdges): the visit counter shared by the whole recursion only grows and, started at most at 1025,
+   never exceeds 1025 - one glyph resolves at most 1025 glyph records whatever the component graph is; a call made when
+   more than 1024 glyphs have been visited contributes nothing *)
+Theorem composite_budget : forall e fuel gid depth ec pts ec',
+  points_for_glyph fuel e gid depth ec = Ok (pts, ec') -> ec <= ec' /\ (ec <= 1025 -> ec' <= 1025).
+Proof. exact points_for_glyph_edges. Qed.
+Print Assumptions composite_budget.
+
+Theorem over_budget_contributes_nothing : forall fuel e gid depth ec,
+  1024 < ec -> points_for_glyph (S fuel) e gid depth ec = Ok ([], ec).
+Proof. exact over_budget_lemma. Qed.
+Print Assumptions over_budget_contributes_nothing.
 
 (* placement maps move points but keep the on-curve and end-of-contour marks: the contour structure of a component is
    the contour structure of its image *)
@@ -128,11 +142,11 @@ Proof. exact placement_marks. Qed.
 Print Assumptions placement_keeps_marks.
 
 (* a simple glyph contributes its decoded integer points *)
-Theorem simple_glyph_points : forall e gid depth k raw h end_pts pts all,
-  lookup_rec (e_recs e) gid = Some raw -> gid < e_nglyf e -> depth <= 20 ->
+Theorem simple_glyph_points : forall e gid depth ec k raw h end_pts pts all ec',
+  lookup_rec (e_recs e) gid = Some raw -> gid < e_nglyf e -> depth <= 20 -> ec <= 1024 ->
   parse_glyph_full raw = Ok (h, BSimple end_pts pts) ->
-  points_for_glyph (S k) e gid depth = Ok all ->
-  all = top_shift depth (map fp_of_int_point (contour_points_from 0 end_pts pts) ++ phantoms_of e h gid).
+  points_for_glyph (S k) e gid depth ec = Ok (all, ec') ->
+  all = top_shift depth (map fp_of_int_point (contour_points_from 0 end_pts pts) ++ phantoms_of e h gid) /\ ec' = ec + 1.
 Proof. exact simple_points_lemma. Qed.
 Print Assumptions simple_glyph_points.
 
@@ -192,6 +206,24 @@ Theorem charstring_bounds_enclose : forall fuel cs lsubrs gsubrs segs b,
 Proof. exact load_glyph_bounds_lemma. Qed.
 Print Assumptions charstring_bounds_enclose.
 
+(* CFF2 charstrings at the default coordinates (cff2CharstringHandler: no return / endchar, vsindex, blend dropping its
+   deltas; a subroutine ends with its bytes): the same three facts, for all byte strings, subroutine lists and variation
+   store shapes *)
+Theorem cff2_charstring_no_panic : forall fuel cs lsubrs gsubrs vs default_vs,
+  no_panic (load_glyph2 fuel cs lsubrs gsubrs vs default_vs).
+Proof. exact load_glyph2_no_panic_lemma. Qed.
+Print Assumptions cff2_charstring_no_panic.
+
+Theorem cff2_path_wellformed : forall fuel cs lsubrs gsubrs vs default_vs segs b,
+  load_glyph2 fuel cs lsubrs gsubrs vs default_vs = Ok (segs, b) -> exists f c, wf_rev (rev segs) = Some (f, c).
+Proof. exact load_glyph2_path_lemma. Qed.
+Print Assumptions cff2_path_wellformed.
+
+Theorem cff2_bounds_enclose : forall fuel cs lsubrs gsubrs vs default_vs segs b,
+  load_glyph2 fuel cs lsubrs gsubrs vs default_vs = Ok (segs, b) -> forall p, In p (drawn_all segs) -> in_b b p.
+Proof. exact load_glyph2_bounds_lemma. Qed.
+Print Assumptions cff2_bounds_enclose.
+
 (* ---------------------------------------------------------------------------------------------------------------- *)
 (* gvar: the scalar of a tuple variation (Model/GvarScalar.v)                                                           *)
 
@@ -212,6 +244,47 @@ Theorem gvar_scalar_zero_factor : forall hi coords peak start end_ l acc,
   In (Some 0) l -> l = map (term_at hi coords peak start end_) (seq 0 (length coords)) -> fold_left mul_term l acc = 0.
 Proof. intros hi coords peak start end_ l acc H _. exact (product_zero l acc H). Qed.
 Print Assumptions gvar_scalar_zero_factor.
+
+(* ---------------------------------------------------------------------------------------------------------------- *)
+(* vertical metrics at default coordinates (Model/VMetrics.v)                                                           *)
+
+(* vmtx, the analogue of advance_rule_total: with well-formed vhea/vmtx every glyph below numGlyphs has vertical metrics:
+   Face.VerticalAdvance is minus its own long record's advance, or minus the advance of the LAST long record for the glyphs
+   beyond numOfLongVerMetrics, which read their own short top side bearing *)
+Theorem vertical_advance_rule_total : forall vhea vmtx n_long num_glyphs upem gid,
+  hhea_num_long vhea = Ok n_long -> wf_hmtx vmtx n_long num_glyphs -> 0 <= gid < num_glyphs ->
+  exists t, load_hmtx vhea vmtx num_glyphs = Ok t
+            /\ hmtx_is_empty t = false
+            /\ vertical_advance upem t gid = - advance_spec vmtx n_long gid
+            /\ side_bearing t gid = lsb_spec vmtx n_long gid.
+Proof. exact vertical_advance_rule_lemma. Qed.
+Print Assumptions vertical_advance_rule_total.
+
+(* VORG: on entries sorted by glyph index the binary search returns the glyph's own entry, the default when it has none *)
+Theorem vorg_lookup_exact : forall t gid, sorted_entries (vo_entries t) -> vorg_y_origin t gid = vorg_spec t gid.
+Proof. exact vorg_y_origin_lemma. Qed.
+Print Assumptions vorg_lookup_exact.
+
+(* origin rule, with VORG: GlyphVOrigin's y is the VORG value of the glyph, found = true *)
+Theorem v_origin_from_vorg : forall f th tv gid hdr vt,
+  parse_vorg (vf_vorg f) = Some vt -> sorted_entries (vo_entries vt) ->
+  snd (fst (glyph_v_origin f th tv gid hdr)) = vorg_spec vt gid /\ snd (glyph_v_origin f th tv gid hdr) = true.
+Proof. exact v_origin_vorg_lemma. Qed.
+Print Assumptions v_origin_from_vorg.
+
+(* origin rule, without VORG and with well-formed hmtx and vmtx: x is half the horizontal advance (truncated), y the top
+   of the glyph's glyf box plus its top side bearing *)
+Theorem v_origin_from_vmtx : forall f gid hdr nlh nlv,
+  parse_vorg (vf_vorg f) = None ->
+  hhea_num_long (vf_hhea f) = Ok nlh -> wf_hmtx (vf_hmtx f) nlh (vf_nglyphs f) ->
+  hhea_num_long (vf_vhea f) = Ok nlv -> wf_hmtx (vf_vmtx f) nlv (vf_nglyphs f) ->
+  0 <= gid < vf_nglyphs f -> gid < vf_nglyf f ->
+  exists th tv, load_hmtx (vf_hhea f) (vf_hmtx f) (vf_nglyphs f) = Ok th /\ load_hmtx (vf_vhea f) (vf_vmtx f) (vf_nglyphs f) = Ok tv
+    /\ glyph_v_origin f th tv gid hdr
+       = (Z.quot (advance_spec (vf_hmtx f) nlh gid) 2,
+          match hdr with [] => 0 | _ => Z.max (i16_at 4 hdr) (i16_at 8 hdr) end + lsb_spec (vf_vmtx f) nlv gid, true).
+Proof. exact v_origin_vmtx_lemma. Qed.
+Print Assumptions v_origin_from_vmtx.
 
 (* ---- non-vacuity ---- *)
 (* a contour starting with two off-curve points, and a second all-off-curve contour *)
@@ -309,3 +382,33 @@ Example gvar_scalar_example :
   /\ scalar_go [0; 0; 7000; 0] [[16384; 16384; 16384; 0]] false 0 [] [] [] false = 0
   /\ In (Some 0) (map (term_at false [0; 0; 7000; 0] [16384; 16384; 16384; 0] [] []) (seq 0 4)).
 Proof. repeat split; try (vm_compute; reflexivity). left. vm_compute. reflexivity. Qed.
+
+(* glyph 2 refers to itself twice and to the triangle once: without the budget 2^21 - 1 visits; with it the counter stops
+   at 1025 *)
+Example composite_budget_example :
+  let e := mkEnv 3 [(1, [0;1; 0;0; 0;0; 0;100; 0;100;  0;2; 0;0; 1;1;1; 0;0; 0;100; 255;156; 0;0; 0;0; 0;100]);
+                    (2, [255;255; 0;0; 0;0; 0;0; 0;0;  0;34; 0;2; 0;0;   0;34; 0;2; 0;0;   0;2; 0;1; 0;0])]
+                  hmtx_empty_tab hmtx_empty_tab 1000 in
+  match points_for_glyph comp_fuel e 2 0 0 with Ok (_, n) => n = 1025 | _ => False end.
+Proof. vm_compute. reflexivity. Qed.
+
+(* 3 glyphs, 2 long vertical metrics: glyph 2 advances by minus the last long advance; VORG with entries for glyphs 1 and 4 *)
+Example vmetrics_example :
+  let vmtx := [3; 232; 0; 10; 3; 132; 0; 20; 255; 251] in
+  wf_hmtx vmtx 2 3 /\ - advance_spec vmtx 2 2 = -900 /\ lsb_spec vmtx 2 2 = -5
+  /\ parse_vorg [0;1; 0;0; 3;112; 0;2;  0;1; 3;32;  0;4; 2;188] = Some (mkVorg 880 [(1, 800); (4, 700)])
+  /\ sorted_entries [(1, 800); (4, 700)]
+  /\ vorg_y_origin (mkVorg 880 [(1, 800); (4, 700)]) 4 = 700 /\ vorg_y_origin (mkVorg 880 [(1, 800); (4, 700)]) 3 = 880.
+Proof.
+  cbv zeta. split; [unfold wf_hmtx; cbn; lia|]. repeat split; try reflexivity.
+  apply sorted_strict_entries. reflexivity.
+Qed.
+
+(* a subroutine without return operator (the only kind CFF2 has): the caller resumes after it.  Subroutine 0 moves to
+   (100, 100); the charstring then draws a line.  With two regions per operand, "1 2 3 1 blend" leaves the operand 1 *)
+Example cff2_example :
+  load_glyph2 100 [32; 10; 189; 139; 5] [[239; 239; 21]] [] [] 0
+  = Ok ([CMove (100 * FX, 100 * FX); CLine (150 * FX, 100 * FX)], (100 * FX, 100 * FX, 150 * FX, 100 * FX))
+  /\ load_glyph2 100 [140; 141; 142; 140; 16; 22] [] [] [(2, true)] 0 = Ok ([CMove (1 * FX, 0)], (0, 0, 0, 0))
+  /\ load_glyph2 100 [239; 239; 21; 14] [] [] [] 0 = Err 8.
+Proof. repeat split; vm_compute; reflexivity. Qed.
